@@ -94,6 +94,13 @@ def configs(tier):
     add(1, 2, KINDS, 1)
     add(1, 3, KINDS, None)
     add(1, 3, ('not', 'xor'), 0)
+    # the same small networks with an input whose own output event fails (non-fatal error)
+    n0 = len(out)
+    add(1, 1, KINDS, None)
+    add(1, 2, KINDS, None)
+    add(2, 2, ('not', 'xor', 'and'), None)
+    for c in out[n0:]:
+        c['badev'] = True
     if tier == 'thorough':
         add(2, 3, KINDS, None)
         add(1, 3, KINDS, 0)
@@ -164,7 +171,12 @@ def run_case(cfg, perm, start, targets, acc):
     died_at = None
     with Sim() as sim:
         nets.install_rank_hash()
-        srcs = [edzed.Input(f's{i}', initdef=start[i]) for i in range(k)]
+        if cfg.get('badev'):
+            edzed.Input('sinkx', initdef=0)
+            srcs = [edzed.Input(f's{i}', initdef=start[i], on_output=edzed.Event(
+                'sinkx', 'no_such_event', efilter=edzed.not_from_undef)) for i in range(k)]
+        else:
+            srcs = [edzed.Input(f's{i}', initdef=start[i]) for i in range(k)]
         evin = edzed.Input('e', initdef=False) if cfg['ev'] is not None else None
         gates = []
 
@@ -184,7 +196,7 @@ def run_case(cfg, perm, start, targets, acc):
             gates[j].connect(*[f's{s[1]}' if s[0] == 's' else f'g{s[1]}' if s[0] == 'g' else 'e'
                                for s in slots])
         nets.set_ranks(gates, perm)
-        nblocks = k + m + (1 if evin is not None else 0)
+        nblocks = k + m + (1 if evin is not None else 0) + (1 if cfg.get('badev') else 0)
         acyclic = is_acyclic(cfg)
 
         def judge(vec, task, label):
@@ -244,7 +256,11 @@ def run_case(cfg, perm, start, targets, acc):
                     for goal in (tgt, start):
                         for i in range(k):
                             if srcs[i].output != goal[i]:
-                                edzed.ExtEvent(srcs[i]).send(goal[i])
+                                try:
+                                    edzed.ExtEvent(srcs[i]).send(goal[i])
+                                except edzed.EdzedUnknownEvent:
+                                    if not cfg.get('badev'):
+                                        raise
                         await sim.loop.idle()
                         if judge(goal, task, f"change {start}->{tgt}->{start}, now at"):
                             died_at = ti
@@ -264,7 +280,7 @@ def run_case(cfg, perm, start, targets, acc):
 
 
 def cfg_key(cfg):
-    return (cfg['k'], cfg['gates'], cfg['ev'])
+    return (cfg['k'], cfg['gates'], cfg['ev'], cfg.get('badev', False))
 
 
 def run_cascade(cfg, acc):
